@@ -61,6 +61,9 @@ SCENARIOS = {
     'edit-options.bfg': edit_options,
     'remove-matching-file': edit_remove_file,
 }
+# `configure` run again over a configured and built directory with a different project option:
+# no source edit, the interrupted run itself is what changes the project's configuration
+RECONFIGURE = 'reconfigure-other-option'
 ACTIONS = ['tool', 'lazy', 'full']
 FAULTY = 'lazy-fails'      # a further attempt that itself fails (script raises), then is retried
 
@@ -91,6 +94,9 @@ def do_action(pr, action):
         return r.rc, r.err
     if action == 'tool':
         rc, out, recs = pr.run([])
+        if rc == 0 and not os.path.exists(pr.bfglog):
+            # the backend saw nothing to regenerate: not a regeneration attempt at all
+            return None, out
         return rc, out
     r = bfg.regenerate(pr.bld, pr.env, lazy=(action == 'lazy'), inproc=True)
     return r.rc, r.err
@@ -101,7 +107,14 @@ def _scenario_shard(arg):
     root = os.path.join(core.worker_dir(), 'c10')
     shutil.rmtree(root, ignore_errors=True)
     os.makedirs(root)
-    pr = proj.Proj(os.path.join(root, 'p'), backend, OLD, OLD['build.bfg'])
+    wrapper = os.path.join(root, 'bfgwrap')
+    bfglog = os.path.join(root, 'bfg.log')
+    with open(wrapper, 'w') as f:
+        f.write('#!/bin/sh\necho "$*" >> %s\nexec %s %s "$@"\n'
+                % (bfglog, os.path.join(bfg.VENV_BIN, 'python'), bfg.BFG_CLI))
+    os.chmod(wrapper, 0o755)
+    pr = proj.Proj(os.path.join(root, 'p'), backend, OLD, OLD['build.bfg'], extra_env={'BFG9000': wrapper})
+    pr.bfglog = bfglog
     viol = []
     stats = dict(points=0, hit=0, recoveries=0, outcomes={})
 
@@ -115,14 +128,16 @@ def _scenario_shard(arg):
         if rc != 0:
             raise core.HarnessError('initial build failed: ' + out[-300:])
         proj.tick()
-        SCENARIOS[scen](pr.src)
+        if scen != RECONFIGURE:
+            SCENARIOS[scen](pr.src)
         proj.tick()
     pre = os.path.join(root, 'pre')
     proj.snapshot(pr.root, pre)
 
     def operation():
-        if initial:
-            argv = ['configure-into', pr.src, pr.bld, '--backend=' + backend, '--no-resolve-packages']
+        if initial or scen == RECONFIGURE:
+            argv = ['configure-into', pr.src, pr.bld, '--backend=' + backend, '--no-resolve-packages'] + \
+                (['--name=reconfigured', '--prefix=/other/prefix'] if scen == RECONFIGURE else [])
         else:
             argv = ['regenerate', '--lazy', pr.bld]
         return bfg.run_inproc(argv, pr.env, pr.src).rc
@@ -133,12 +148,29 @@ def _scenario_shard(arg):
     ref = declared_outputs(pr.bld, backend)
     if ref[build_file(backend)] is None:
         raise core.HarnessError('reference run wrote no build file')
-    old = None
+
+    def saved_env():
+        p = os.path.join(pr.bld, '.bfg_environ')
+        return open(p, 'rb').read() if os.path.exists(p) else None
+    env_new = saved_env()
+    old = env_old = None
     if not initial:
         proj.restore(pre, pr.root)
         old = declared_outputs(pr.bld, backend)
+        env_old = saved_env()
         if old == ref:
             raise core.HarnessError('scenario %s does not change the build files' % scen)
+    if scen == RECONFIGURE and env_old == env_new:
+        raise core.HarnessError('re-configuring does not change the saved configuration')
+
+    def target():
+        """what the declared outputs must be: for source edits always the uninterrupted run's; for a
+        re-configure the project on disk is the sources plus the SAVED configuration, which a run
+        killed before its first write has not changed"""
+        if scen != RECONFIGURE:
+            return ref
+        e = saved_env()
+        return ref if e == env_new else old if e == env_old else None
     stats['points'] = len(points)
     seqs = [(a,) for a in ACTIONS] + [(FAULTY, a) for a in ACTIONS]
     if maxlen >= 2:
@@ -159,20 +191,27 @@ def _scenario_shard(arg):
             rcs = []
             stale_after = None
             for i, a in enumerate(seq):
+                if os.path.exists(bfglog):
+                    os.remove(bfglog)
                 rc, out = do_action(pr, a)
+                if rc is None:
+                    continue
                 rcs.append(rc)
                 if rc == 0 and a == FAULTY:
                     # the injected failure was not reached (regeneration legitimately skipped)
                     pass
                 # an attempt that REPORTS SUCCESS must have brought the files up to date
-                if rc == 0 and declared_outputs(pr.bld, backend) != ref:
+                if rc == 0 and declared_outputs(pr.bld, backend) != target():
                     stale_after = i
                     break
+            if stale_after is None and not rcs:
+                outcome('no-regeneration-attempted')
+                continue
             if stale_after is None and any(rcs):
                 outcome('failed-visibly')
                 continue
             now = declared_outputs(pr.bld, backend)
-            if stale_after is None and now == ref:
+            if stale_after is None and now == target():
                 # and a following build really uses the new project
                 rc, out, _ = pr.run([])
                 if rc != 0:
@@ -181,8 +220,13 @@ def _scenario_shard(arg):
                 continue
             seq = seq[:stale_after + 1] if stale_after is not None else seq
             outcome('violation')
+            tg = target()
+            if tg is None:
+                viol.append(('silently-stale', backend, scen, kind, path, seq,
+                             'the saved configuration is neither the old nor the new one'))
+                continue
             diff = [n for n in ref if now[n] != ref[n]]
-            what = []
+            what = ['(saved configuration: %s)' % ('new' if tg is ref else 'old')] if scen == RECONFIGURE else []
             for n in diff:
                 if now[n] is None:
                     what.append('%s missing' % n)
@@ -244,7 +288,7 @@ def run(ctx):
     maxlen = 2 if th else 1
     shards = []
     for b in backends:
-        for s in scens:
+        for s in scens + [RECONFIGURE]:
             shards.append(('scen', (b, s, maxlen, False)))
         if th:
             shards.append(('scen', (b, 'initial-configure', maxlen, True)))
